@@ -6,6 +6,7 @@ mod cluster;
 mod mailbox;
 mod ratelim;
 mod registry;
+mod select;
 mod shutdown;
 mod supervision;
 
@@ -61,6 +62,8 @@ fn main() {
         "mailbox" => mailbox::run(&args),
         "shutdown" => shutdown::run(&args),
         "registry" => registry::run(&args),
+        "select_listen" => select::listen(&args),
+        "select_rws" => select::rws(&args),
         "supervision" => supervision::run(&args),
         "typegate" => mailbox::typegate(&args),
         "elect" => cluster::elect(&args),
